@@ -465,6 +465,17 @@ def strict_eq(a, b):
     return a == b
 
 
+def recon(exc):
+    """can (qualified type, str(exc)) -- what the wire format carries -- rebuild an exception of this type with this message?
+    False for the shapes of the recorded known finding (constructor rejects one string, str() not idempotent); True means the
+    exception MUST survive, so a difference is a different defect"""
+    try:
+        r = type(exc)(str(exc))
+    except Exception:  # noqa: BLE001
+        return False
+    return str(r) == str(exc)
+
+
 def exc_diff(orig, got):
     """-> effect or None"""
     if not isinstance(got, BaseException):
@@ -491,7 +502,7 @@ def event_diff(env, orig, got, acc, out, path="event"):
         elif isinstance(a, BaseException):
             eff = exc_diff(a, b)
             if eff:
-                out.append(("carried_exception", f"{path}.{name}: {a!r} came back as {b!r} ({eff})"))
+                out.append(("carried_exception" if not recon(a) else "carried_exception_reconstructible", f"{path}.{name}: {a!r} came back as {b!r} ({eff})"))
         else:
             if hasattr(a, "model_fields") or isinstance(a, (list, dict)) and any(hasattr(x, "model_fields") for x in (a.values() if isinstance(a, dict) else a)):
                 acc.hit("nested_model_eval")
@@ -521,8 +532,8 @@ def report_event(acc, diffs, route, case):
     for aspect, detail in diffs:
         if aspect == "stop_dynamic_dropped":
             sig = {"mech": "stopevent_dynamic_fields_dropped"}
-        elif aspect == "carried_exception":
-            sig = {"mech": "exception_rebuilt_from_message", "effect": "in_event_case"}
+        elif aspect in ("carried_exception", "carried_exception_reconstructible"):
+            sig = {"mech": "exception_rebuilt_from_message", "effect": "in_event_case", "reconstructible": aspect.endswith("reconstructible")}
         else:
             sig = {"mech": "event_roundtrip_mismatch", "aspect": aspect}
         acc.violation(sig, f"[{route}] {detail}"[:600], case)
@@ -601,7 +612,7 @@ def check_tick_case(env, case, acc, exc_spec=None):
 
     def raised(stage, x):
         if is_exc_case and not _control_fails_too(lambda: env.tick(case["tick"], CONTROL_EXC), dump, load, stage, x):
-            acc.violation({"mech": "exception_rebuilt_from_message", "effect": f"{stage}_raises", "exc": type(x).__name__},
+            acc.violation({"mech": "exception_rebuilt_from_message", "effect": f"{stage}_raises", "exc": type(x).__name__, "reconstructible": recon(env.exc(exc_spec))},
                           f"[{route}] {case['carrier']} carrying {env.exc(exc_spec)!r}: {stage} raised {type(x).__name__}: {str(x)[:300]}", case)
         else:
             acc.violation({"mech": "tick_roundtrip_raises", "stage": stage, "exc": type(x).__name__},
@@ -654,12 +665,12 @@ def check_tick_case(env, case, acc, exc_spec=None):
             eff = "lost" if b is None else exc_diff(a, b)
             if eff:
                 if is_exc_case:
-                    sig = {"mech": "exception_rebuilt_from_message", "effect": eff}
+                    sig = {"mech": "exception_rebuilt_from_message", "effect": eff, "reconstructible": recon(a)}
                     if case["exc"]["maker"] in env.ce.EXC_NOT_MODULE_LEVEL:
                         acc.note("nested_class_exception_" + eff)
                         continue
                 else:
-                    sig = {"mech": "exception_rebuilt_from_message", "effect": "in_tick_case"}
+                    sig = {"mech": "exception_rebuilt_from_message", "effect": "in_tick_case", "reconstructible": recon(a)}
                 acc.violation(sig, f"[{route}] {p}: {a!r} (str {str(a)!r}) came back as {b!r} (str {str(b)!r})"[:600], case)
             elif type(a) is not type(b):
                 acc.note("exception_subclass_instead_of_same_class")
@@ -740,7 +751,7 @@ def exc_carrier_case(env, case, acc):
             acc.violation({"mech": "event_roundtrip_raises", "stage": stage, "exc": type(x).__name__},
                           f"[{route}] {carrier}: {stage} raised {type(x).__name__}: {str(x)[:300]} (also with a control exception)", case)
         else:
-            acc.violation({"mech": "exception_rebuilt_from_message", "effect": f"{stage}_raises", "exc": type(x).__name__},
+            acc.violation({"mech": "exception_rebuilt_from_message", "effect": f"{stage}_raises", "exc": type(x).__name__, "reconstructible": recon(exc)},
                           f"[{route}] {carrier} carrying {exc!r}: {stage} raised {type(x).__name__}: {str(x)[:300]}", case)
         return
     if type(got) is not type(orig):
@@ -751,7 +762,7 @@ def exc_carrier_case(env, case, acc):
         if nested:
             acc.note("nested_class_exception_" + eff)
         else:
-            acc.violation({"mech": "exception_rebuilt_from_message", "effect": eff},
+            acc.violation({"mech": "exception_rebuilt_from_message", "effect": eff, "reconstructible": recon(exc)},
                           f"[{route}] {carrier}.exception {exc!r} (str {str(exc)!r}) came back as {got.exception!r} "
                           f"(str {str(got.exception)!r})"[:600], case)
     elif type(got.exception) is not type(exc):
